@@ -37,6 +37,40 @@ prop("C20", "exploration",
      "runtime reference-model monitor, exhaustive 32-bit sweep", "DESIGN.md §3 C20")
 
 
+BUF_RULE = ("cases = operations of seed-generated sequences (5..200 operations each, fresh buffer per sequence) over the full public API with "
+            "boundary-seeking sizes and hostile but contract-conforming io.Reader/io.Writer scripts; after EVERY operation the result, the counters and "
+            "the whole content are compared with a plain FIFO reference model; a sequence stops at its first divergence. distinct_nontrivial = distinct "
+            "(type, operation, abstract pre-state, argument class / reader-writer behaviour) tuples whose operation was checked")
+prop("C09", "exploration", BUF_RULE + "; plus a breadth-first sweep over every (r, w, isEmpty, size) state reachable from ring.New(2|4|8) applying every operation in every state",
+     [
+         {"harness": "buf", "args": {"quick": ["--mode", "ring"], "thorough": ["--mode", "ring", "--n", "40000000"]}, "timeout": {"quick": 400, "thorough": 3000}},
+         {"harness": "buf", "args": {"quick": ["--mode", "sweep"], "thorough": ["--mode", "sweep"]}, "timeout": {"quick": 300, "thorough": 600}},
+         {"harness": "buf", "race": True, "tiers": ["thorough"], "args": {"thorough": ["--mode", "ring", "--n", "3000000"]}, "timeout": {"thorough": 3000}},
+     ],
+     "Reference-model monitor over ring.Buffer: every operation of millions of generated sequences is checked against a []byte FIFO, plus an exhaustive "
+     "breadth-first sweep of the cursor state space of small rings (thorough: 4*10^7 operations and a checkptr/-race build).",
+     "the model and the reader/writer scripts are mine; the cursor positions are read through a verif-tagged export file for state classification only",
+     "runtime reference-model monitor (model-based operation sequences + BFS sweep of small-capacity state space)", "DESIGN.md §3 C09-C11")
+prop("C10", "exploration", BUF_RULE,
+     [
+         {"harness": "buf", "args": {"quick": ["--mode", "elastic"], "thorough": ["--mode", "elastic", "--n", "40000000"]}, "timeout": {"quick": 400, "thorough": 3000}},
+         {"harness": "buf", "args": {"quick": ["--mode", "eringbuf"], "thorough": ["--mode", "eringbuf", "--n", "20000000"]}, "timeout": {"quick": 400, "thorough": 3000}},
+         {"harness": "buf", "race": True, "tiers": ["thorough"], "args": {"thorough": ["--mode", "elastic", "--n", "3000000"]}, "timeout": {"thorough": 3000}},
+     ],
+     "Reference-model monitor over elastic.Buffer (ring + linked list, static limits 1..64K) and elastic.RingBuffer (lazily pooled ring): every operation "
+     "checked against a []byte FIFO; Peek(n) for every n class, Discard, Writev with empty and >1024 segments, ring/list switch-over.",
+     "as C09", "runtime reference-model monitor (model-based operation sequences)", "DESIGN.md §3 C09-C11")
+prop("C11", "exploration", BUF_RULE,
+     [
+         {"harness": "buf", "args": {"quick": ["--mode", "list"], "thorough": ["--mode", "list", "--n", "60000000"]}, "timeout": {"quick": 400, "thorough": 3000}},
+         {"harness": "buf", "race": True, "tiers": ["thorough"], "args": {"thorough": ["--mode", "list", "--n", "3000000"]}, "timeout": {"thorough": 3000}},
+     ],
+     "Reference-model monitor over linkedlist.Buffer: list-of-segments model, caller memory is scribbled over after PushBack/PushFront, readers that "
+     "return data with EOF / with an error / (0,nil), writers that fail midway.",
+     "the segmentation produced by ReadFrom is not part of the statement: Len is checked exactly only while no ReadFrom data is buffered",
+     "runtime reference-model monitor (model-based operation sequences)", "DESIGN.md §3 C09-C11")
+
+
 # ---------------------------------------------------------------------------------------
 NOT_APPLICABLE = []
 
